@@ -520,6 +520,33 @@ def txt(ctx: Any) -> List[Ob]:
             if w_ is not None:
                 missing.append(norm(cv.ast)[:60])
         obs.append(ob(R, w, reuse[0], 'the caller\'s dictionary is reused as the decoded properties only when no key or value had to be converted to bytes (every conversion marks the dictionary as not reusable)', good and not missing, f'conversion without marking: {missing}' if missing else ('' if good else 'no not-<flag> guard on the reuse')))
+    # the writer refuses an item only when it cannot be written: an item of up to 255 bytes has a one-byte length prefix and is
+    # legal; an explicit refusal has to be the bound `len(item) > 255`, nothing tighter (the implicit one is bytes((256,)))
+    from sa import lf as _lf19
+
+    parents_w: Dict[int, ast.AST] = {}
+    for a_ in ast.walk(w.node):
+        for ch_ in ast.iter_child_nodes(a_):
+            parents_w[id(ch_)] = a_
+    for rz in [x for x in walk_local_ordered(w.node) if isinstance(x, ast.Raise)]:
+        n_: ast.AST = rz
+        guard_w = None
+        while id(n_) in parents_w and guard_w is None:
+            par_ = parents_w[id(n_)]
+            if isinstance(par_, ast.If) and n_ in par_.body:
+                guard_w = par_
+            n_ = par_
+        okz, whyz = False, 'unguarded refusal'
+        if guard_w is not None:
+            try:
+                plz, opz = _lf19.comparison(prog, w.module, guard_w.test, lambda x: 'L' if isinstance(x, ast.Call) and norm(x.func) == 'len' else None)
+                if opz == '<=':
+                    plz, opz = _lf19.p_add(plz, _lf19.p_const(1), -1), '<'
+                okz = _lf19.same_cmp((plz, opz), _lf19.parse_cmp('255 - L < 0'))
+                whyz = f'guard `{norm(guard_w.test)}` reads as {_lf19.p_str(plz)} {opz} 0'
+            except _lf19.NotLinear as ex_:
+                whyz = f'guard `{norm(guard_w.test)}`: {ex_}'
+        obs.append(ob(R, w, rz, 'the writer refuses an item only when it is longer than 255 bytes (the largest a one-byte length prefix can announce)', okz, whyz))
     # reader
     parts = [c for c in walk_local_ordered(r.node) if isinstance(c, ast.Call) and call_name(c) in ('partition', 'split') and c.args and isinstance(c.args[0], ast.Constant)]
     obs.append(ob(R, r, parts[0] if parts else 'partition', 'reader splits each item at the first `=`', len(parts) == 1 and parts[0].args[0].value == b'=' and call_name(parts[0]) == 'partition'))
